@@ -696,7 +696,7 @@ func ledgerHistory(c *Ctx, id int) {
 					} else {
 						bal, _ := n.Chain().GetFrontierAccountStore(owner).GetBalance(t)
 						if bal != nil && bal.Sign() > 0 {
-							submit("combo-burn", &nom.AccountBlock{BlockType: nom.BlockTypeUserSend, Address: owner, ToAddress: types.TokenContract, TokenStandard: t, Amount: big.NewInt(1 + int64(c.R.Intn(int(minInt(30, int(bal.Int64())))))),
+							submit("combo-burn", &nom.AccountBlock{BlockType: nom.BlockTypeUserSend, Address: owner, ToAddress: types.TokenContract, TokenStandard: t, Amount: big.NewInt(1 + int64(c.R.Intn(burnLimit(bal)))),
 								Data: definition.ABIToken.PackMethodPanic(definition.BurnMethodName)})
 						}
 					}
@@ -825,4 +825,11 @@ func ledgerHistory(c *Ctx, id int) {
 		}
 	}
 	c.Hit("history-complete")
+}
+
+func burnLimit(bal *big.Int) int {
+	if bal.IsInt64() && bal.Int64() < 30 {
+		return int(bal.Int64())
+	}
+	return 30
 }
